@@ -463,8 +463,8 @@ def check_builder(case):
 
 
 SUBS = [
-    Sub("pythtb", ptb_case(), check_pythtb, quick=480, thorough=6400),
-    Sub("tbmodels", tbm_case(), check_tbmodels, quick=320, thorough=4800),
-    Sub("haldane", haldane_st, check_haldane, quick=80, thorough=1600),
-    Sub("builders", builder_case(), check_builder, quick=160, thorough=1600),
+    Sub("pythtb", ptb_case(), check_pythtb, quick=480, thorough=6400, budget_quick=150.0, budget_thorough=900.0),
+    Sub("tbmodels", tbm_case(), check_tbmodels, quick=320, thorough=4800, budget_quick=150.0, budget_thorough=900.0),
+    Sub("haldane", haldane_st, check_haldane, quick=80, thorough=1600, budget_quick=150.0, budget_thorough=900.0),
+    Sub("builders", builder_case(), check_builder, quick=160, thorough=1600, budget_quick=150.0, budget_thorough=900.0),
 ]
